@@ -236,13 +236,21 @@ struct StoryDoc {
     json: String,
 }
 
+/// second play template: choices that carry tags and text that needs escaping, names with capitals
+const PLAY_SRC2: &str = "Line. # t1\n* choice \"q\" \\\\ back # ctag [br # btag] end # etag\n    Body.\n+ plain # ptag\n    P.\n- done\n-> WineCellar\n=== WineCellar ===\nCellar.\n-> Rack\n= Rack\nRack text.\n+ [look \"at\" it # ltag] -> Rack\n* [leave] -> END\n";
+const INPUTS2: &[&str] = &["1", "2", "-> WineCellar", "-> WineCellar.Rack", "-> winecellar", "-> WINECELLAR.rack", "quit"];
+
 fn scripts(len: usize) -> Vec<Vec<String>> {
+    scripts_over(INPUTS, len)
+}
+
+fn scripts_over(inputs: &[&str], len: usize) -> Vec<Vec<String>> {
     let mut all: Vec<Vec<String>> = vec![vec![]];
     let mut layer: Vec<Vec<String>> = vec![vec![]];
     for _ in 0..len {
         let mut next = vec![];
         for s in &layer {
-            for i in INPUTS {
+            for i in inputs {
                 let mut t = s.clone();
                 t.push(i.to_string());
                 next.push(t);
@@ -309,16 +317,27 @@ pub fn run(tier: Tier) -> i32 {
             si < c14::HOSTILE_CHARS.len() || pi < 3
         });
     }
+    let second = docs.len();
+    if let CompileOutcome::Ok(tp2) = Prog::from_source("play-template-2", PLAY_SRC2) {
+        docs.push(StoryDoc { id: "play-template-2".into(), feature: "template-tagged-choices-capital-names".into(), json: tp2.json.clone() });
+    }
     for d in hostile {
         docs.push(StoryDoc { id: d.id.clone(), feature: d.feature.clone(), json: d.text.clone() });
     }
     let all_scripts = scripts(slen);
+    let all_scripts2 = scripts_over(INPUTS2, slen.max(3));
     // hostile documents get the scripts that reach every text position (line, tag, choice text,
     // chosen text, knot text); the full script alphabet runs on the template
     let short_scripts: Vec<Vec<String>> = if tier == Tier::Quick { vec![vec!["1".into(), "1".into()], vec!["-> k".into()]] } else { vec![vec![], vec!["1".into()], vec!["1".into(), "1".into()], vec!["-> k".into(), "1".into()], vec!["2".into()]] };
     let mut cases: Vec<PlayCase> = vec![];
     for (si, _d) in docs.iter().enumerate() {
-        let ss = if si == 0 { &all_scripts } else { &short_scripts };
+        let ss = if si == 0 {
+            &all_scripts
+        } else if si == second && docs[si].id == "play-template-2" {
+            &all_scripts2
+        } else {
+            &short_scripts
+        };
         for s in ss {
             for jm in [true, false] {
                 cases.push(PlayCase { story: si, script: s.clone(), json_mode: jm, keep_open: false });
